@@ -643,6 +643,15 @@ class PivotTable(ApplyConcatApply):
             meta = pd.DataFrame(
                 columns=new_columns, dtype=np.float64, index=pd.Index(df[index])
             )
+            if self.operand("aggfunc") == "sum":
+                # A sum keeps integer values integer (missing cells are 0)
+                if is_scalar(values):
+                    meta = meta.astype(df[values].sum().dtype)
+                else:
+                    for value_col in values:
+                        meta[value_col] = meta[value_col].astype(
+                            df[value_col].sum().dtype
+                        )
         return meta
 
     def _lower(self):
